@@ -195,6 +195,20 @@ def sec_programs(ctx, rng, case):
         sv2 = res.state_vector(copy=bool(rng.integers(2)))
         ctx.check(L.allclose(sv2, want, tol), "final-state-views", "C01:view:state_vector:split=%s" % split, "", init=label, **wit)
 
+    # 3b. amplitudes of chosen basis states (from |0...0>), one circuit and a one-point sweep; qubit circuits only
+    if all(d == 2 for d in rdims):
+        sim = cirq.Simulator(dtype=np.complex128, split_untangled_states=bool(rng.integers(2)))
+        full_order = [qubits[w] for w in order]
+        e0 = np.zeros(D, dtype=complex)
+        e0[0] = 1
+        want0 = Uref @ e0
+        idxs = [int(x) for x in rng.integers(0, D, size=int(rng.integers(1, 5)))]
+        amps = sim.compute_amplitudes(circuit, idxs, qubit_order=full_order)
+        ctx.check(len(amps) == len(idxs) and L.allclose(np.asarray(amps), want0[idxs], 1e-7), "final-state-views", "C01:view:compute_amplitudes",
+                  lambda: "compute_amplitudes(%s) = %r, the reference amplitudes are %r" % (idxs, list(amps), list(want0[idxs])), bitstrings=idxs, **wit)
+        sw = sim.compute_amplitudes_sweep(circuit, idxs, cirq.UnitSweep, qubit_order=full_order)
+        ctx.check(len(sw) == 1 and L.allclose(np.asarray(sw[0]), want0[idxs], 1e-7), "final-state-views", "C01:view:compute_amplitudes_sweep", "", bitstrings=idxs, **wit)
+
     # 4. moment stepping: state after every moment
     dtype = [np.complex64, np.complex128][int(rng.integers(2))]
     split = bool(rng.integers(2))
